@@ -753,6 +753,14 @@ func replayOther(t *testing.T, v ev.Violation, raw []byte) *rp.Fail {
 		return execFindCrowded(t, nil)
 	case "failtemplate":
 		return execFailTemplates(nil, newBox(t), nil)
+	case "slowcmd":
+		var c struct {
+			Nap int `json:"sleep_seconds"`
+		}
+		if err := json.Unmarshal(raw, &c); err != nil || c.Nap == 0 {
+			c.Nap = 16
+		}
+		return execSlow(newBox(t), c.Nap)
 	case "unpriv-find":
 		var c PermCase
 		if err := json.Unmarshal(raw, &c); err != nil {
@@ -1039,12 +1047,43 @@ func TestErrBinary(t *testing.T) {
 	})
 }
 
+// execSlow: two tasks, the first of which sleeps nap seconds; everything runs, in order.
+func execSlow(b *sandbox.Box, nap int) *rp.Fail {
+	if err := b.ResetAs(""); err != nil {
+		return &rp.Fail{Sig: "harness", Msg: err.Error()}
+	}
+	src := fmt.Sprintf("task slow() {\n    echo begin1 >> $LOG\n    sleep %d\n    echo end1 >> $LOG\n}\n\ntask after(slow) {\n    echo begin0 >> $LOG\n    echo end0 >> $LOG\n}\n", nap)
+	if err := writeProject(b, b.Proj, map[string]string{"spokfile": src}); err != nil {
+		return &rp.Fail{Sig: "harness", Msg: err.Error()}
+	}
+	logPath := filepath.Join(b.Home, "run.log")
+	r := b.Run(b.Proj, []string{"LOG=" + logPath}, time.Duration(nap+60)*time.Second, "after")
+	if log := readLog(logPath); r.Exit != 0 || strings.Join(log, " ") != "begin1 end1 begin0 end0" {
+		return &rp.Fail{Sig: "unexpected-error", Size: 2, Msg: fmt.Sprintf("spokfile:\n%s`spok after` (no command fails; the first one sleeps %d s): exit %d, log %v, stderr %s", src, nap, r.Exit, log, clip(sandbox.Strip(r.Stderr)))}
+	}
+	return nil
+}
+
 // TestGraphTemplates: every spelling of a name that names no task x its place among the requested
 // names x flags, on a two-task chain; and the same requests with every name defined.
 func TestGraphTemplates(t *testing.T) {
 	s := ev.Open(t, "C03")
 	b := newBox(t)
 	seen := map[string]bool{}
+	// a command that simply takes its time (a build, a download): longer than a quarter of a minute, in
+	// the thorough tier longer than a minute. Nothing fails, so everything runs, in order.
+	naps := []int{16}
+	if ev.Thorough() {
+		naps = append(naps, 61)
+	}
+	for _, nap := range naps {
+		s.Eval()
+		s.Class("a_command_that_takes_its_time")
+		s.NonTrivial(fmt.Sprint("nap", nap))
+		if f := execSlow(b, nap); f != nil {
+			s.Violation("slowcmd", f.Sig, f.Msg, 2, map[string]any{"sleep_seconds": nap})
+		}
+	}
 	spellings := []string{"notatask", "", " ", "\t", "  ", "ALPHA", "alpha ", " alpha", "alph", "alphaa", "alpha,bravo", "-"}
 	for _, flags := range [][]string{nil, {"--force"}, {"--json"}, {"--quiet"}} {
 		for _, req := range [][]int{{0}, {1}, {0, 1}, {1, 0}} {
